@@ -619,6 +619,8 @@ def check_C06(v, tier, seed):
             [rnd.randrange(1, 4095) for _ in range(40)]
     else:
         masks = [0, 4095, 4087, 1365, 2730]
+    # procfs symlinks (net, self, thread-self) replaced by links into another process, one at a time
+    masks += [4096, 8192, 16384]
     runs = [Run("C06-overmount", ["proc-overmount", "--masks", ",".join(str(m) for m in masks)])]
     if tier == "thorough":
         runs.append(Run("C06-overmount-enosys", ["proc-overmount", "--masks", "0,4095,4087", "--no-openat2"]))
@@ -626,6 +628,7 @@ def check_C06(v, tier, seed):
     stats = {"visible_overmounted_lookups": 0, "exdev": 0, "private_lookups": 0, "skipped": 0}
     for r in runs:
         pristine = {}
+        pristine_path = {}
         for c in r.cases:
             if c.op[:1] == ["skip"]:
                 stats["skipped"] += 1
@@ -634,6 +637,8 @@ def check_C06(v, tier, seed):
             if c.meta.get("mask") == "0":
                 d = res_fd(c)
                 pristine[key] = (c.res[:3] if d is None else ["ok", "fd", d.get("kind"), d.get("fstype")])
+                if d is not None:
+                    pristine_path[key] = d.get("path")
         for c in r.cases:
             if c.op[:1] == ["skip"]:
                 continue
@@ -660,6 +665,16 @@ def check_C06(v, tier, seed):
                                                   (d.get("mnt") != c.cfg.get("hmnt") and c.cfg.get("hsubset") != "1")):
                     # (a masked handle may answer from a fresh private unmasked procfs: other mount id, still procfs)
                     msg = f"non-following open returned an object that is not on the handle's procfs mount: {d}"
+            if msg is None and d is not None and c.meta.get("mask") != "0" and c.op[0] == "proc_open":
+                # whatever is mounted wherever: a successful non-following lookup names the object it names on the pristine procfs
+                key = (c.meta.get("handle"), c.cfg.get("hemu"), tuple(c.op))
+                want = pristine_path.get(key)
+                if want is not None and d.get("path") not in (None, "x") and want != d.get("path"):
+                    stats["path_identity_checks"] = stats.get("path_identity_checks", 0) + 1
+                    msg = (f"lookup returned another object than on the pristine procfs: "
+                           f"{unhex(want).decode('latin1')} there, {unhex(d.get('path')).decode('latin1')} under this layout")
+                elif want is not None:
+                    stats["path_identity_checks"] = stats.get("path_identity_checks", 0) + 1
             if msg is None and not visible and c.meta.get("mask") != "0":
                 stats["private_lookups"] += 1
                 key = (c.meta.get("handle"), c.cfg.get("hemu"), tuple(c.op))
